@@ -87,6 +87,7 @@ type psFrame struct {
 	visits map[*ssa.BasicBlock]int
 	kind   string
 	ancRec bool // an enclosing activation has a recovering deferred closure
+	inDef  bool // runs as (part of) a deferred call
 }
 
 func (ps *PathSum) canRecover(f *psFrame) bool {
@@ -162,6 +163,9 @@ func newPathSum(cx *Ctx) *PathSum {
 	if r := os.Getenv("OTTERLINT_RELEVANT"); r != "" {
 		ps.alsoRelevant = strings.Split(r, ",")
 	}
+	if os.Getenv("OTTERLINT_TRACKLOADS") != "" {
+		ps.trackLoads = true
+	}
 	if cx.Tier == "thorough" {
 		ps.maxDepth = 12
 		ps.loopBound = 2
@@ -228,7 +232,11 @@ func newPathSum(cx *Ctx) *PathSum {
 }
 
 func (ps *PathSum) emit(s *psState, f *psFrame, pos token.Pos, kind string, args ...string) {
-	s.trace = append(s.trace, psEvent{Kind: kind, Args: args, Pos: pos, Async: s.async, In: funcName(f.fn)})
+	in := funcName(f.fn)
+	if f.inDef && !strings.Contains(in, "$") {
+		in += "$deferred" // a helper called from a deferred closure is part of the epilogue
+	}
+	s.trace = append(s.trace, psEvent{Kind: kind, Args: args, Pos: pos, Async: s.async, In: in})
 }
 
 func (ps *PathSum) sym(prefix string) string {
@@ -480,6 +488,7 @@ func (ps *PathSum) newFrame(fn *ssa.Function, args, binds []string, kind string,
 		anc = ps.canRecover(parent)
 	}
 	nf := &psFrame{fn: fn, id: ps.nid, vals: map[ssa.Value]string{}, block: fn.Blocks[0], kind: kind, depth: depth, visits: map[*ssa.BasicBlock]int{}, ancRec: anc}
+	nf.inDef = kind == "deferred" || (parent != nil && parent.inDef)
 	for i, p := range fn.Params {
 		if i < len(args) {
 			nf.vals[p] = args[i]
@@ -598,7 +607,7 @@ func (ps *PathSum) dropFrameCells(s *psState, id int, rets []string) {
 		if i := strings.Index(k, tag); i >= 0 {
 			base = k[:i+len(tag)]
 		}
-		if strings.Contains(ref, base) {
+		if strings.Contains(ref, base) || strings.Contains(ref, "@"+strings.TrimPrefix(base, "&")) {
 			continue
 		}
 		delete(s.cells, k)
